@@ -256,14 +256,15 @@ PROPS = {
         "assumptions": [],
     },
     "C01": {
-        "obligations": [MH + n for n in ["mh_step_rule", "mh_step_accept", "mh_step_reject", "mh_step_mem", "accepts_iff",
+        "module": "MiniMcmcVerif.Props.C01Measure",
+        "obligations": [MH + n for n in ["accept_probability", "mh_step_rule", "mh_step_accept", "mh_step_reject", "mh_step_mem", "accepts_iff",
                                          "mh_reject_bad", "mh_reject_nan", "mh_reject_nan_lnu", "mh_never_bad",
                                          "accept_region", "ratio_is_exp_logRatio", "flow_eq_min",
                                          "mh_detailed_balance", "trans_row_sum", "trans_balance", "mh_stationary"]]
                        + ["MiniMcmcVerif.XR.xr_satisfies_laws"],
         "level_text": "Theorems: for every Target/Proposal (arbitrary functions), state type, scalar and every ln u, the step model ends at y iff ln u < [logp y + q(x|y)] - [logp x + q(y|x)] and "
                       "otherwise returns x itself; for every carrier with the listed IEEE laws a NaN/-inf candidate density or a NaN anywhere in the ratio is rejected for every u (u = 0 included); over R the acceptance "
-                      "set of u is (0, min 1 (exp r)); on every finite state space with any non-negative (asymmetric, zeros allowed) proposal matrix the kernel satisfies detailed balance and the target is "
+                      "set of u is (0, min 1 (exp r)) and its Lebesgue measure is min 1 (exp r); on every finite state space with any non-negative (asymmetric, zeros allowed) proposal matrix the kernel satisfies detailed balance and the target is "
                       "stationary. Tied to metropolis_hastings.rs by table-driven Target/Proposal with injected u and exact comparison of the decision and of the resulting state bits with the model at Float/Float32.",
         "level_note": "Trusted: hardware floats satisfy IEEELaws (law table spot-checked natively under C14); Rust's ln and Lean's Float.log are the same libm function; rand's StandardUniform bit layout (self-tested).",
         "rule": "2-4 abstract states with log-density and proposal tables drawn from a palette (finite random, equal values, +-inf, NaN, +-0, subnormal, huge), asymmetric 85% of the time; scripted candidates; "
